@@ -34,11 +34,11 @@ CLAIMED = {
         note="Trusted: TLC, crafted xoshiro256++ state (variate checked indirectly by the strict cases), float comparison of logp. Exactly at a threshold either neighbour is accepted; a zero-probability index never.",
         ref="DESIGN.md 4.9, 5/C16", technique="TLC-enumerated weight vectors and variate classes (Categorical.tla) replayed into the real sampler with injected uniforms"),
     "C15": dict(
-        text="Dist.tla states the built-in log-densities and gradients as exact affine forms / rationals on integer lattices with dyadic scalings; TLC proves on the lattice that each stated gradient is the gradient of the stated log-density (exact finite-difference stencils), symmetry of the proposal density and positivity of the quadratic form, and emits every case; each case is evaluated through every public path (Gaussian2D f32/f64, DiffableGaussian2D batched/single/gradient on both backends with batch sizes 1..64, IsotropicGaussian logp both argument orders/target form/seeded sampling, Rosenbrock2D, RosenbrockND) and compared at f32-level accuracy.",
+        text="Dist.tla states the built-in log-densities and gradients as exact affine forms / rationals on integer lattices with dyadic scalings; TLC proves on the lattice that each stated gradient is the gradient of the stated log-density (exact finite-difference stencils), symmetry of the proposal density and positivity of the quadratic form, and emits every case; each case is evaluated through every public path (Gaussian2D f32/f64, DiffableGaussian2D batched/single/gradient on both backends with batch sizes 1..64, IsotropicGaussian logp both argument orders/target form/seeded sampling, Rosenbrock2D, RosenbrockND) and compared at f32-level accuracy. PropStream.tla models the proposal's random stream as a state machine (draw / set_seed at any moment / clone; SeedResetsAtAnyTime); every history of <= 5 (thorough 7) operations is replayed on f64 and f32 objects: a seeded draw equals, bit for bit, the same draw of a fresh object seeded before first use.",
         note="Trusted: TLC, f64 evaluation of ln(2 pi), ln 2, ln det in harness/src/c15.rs. Values between lattice points are not enumerated (DESIGN section 8).",
         ref="DESIGN.md 4.9, 5/C15", technique="TLC-enumerated lattice cases with exact symbolic oracle and gradient lemmas (Dist.tla) replayed into every public evaluation path"),
     "C17": dict(
-        text="Export.tla models a save call as one atomic action over a file system of tables of opaque tokens, with the documented axis order of each of the five entry points; TLC checks one-row-per-cell / every-token-once / error-leaves-nothing on all (entry point, shape incl. zero extents, path kind) and emits the expected table; the real save_* functions are called with tokens bound to adversarial values (subnormals, extremes, -0.0, NaN, infinities, integer extremes), the files are read back with the csv/arrow/parquet readers and compared cell by cell, unwritable paths must give Err without panic or leftover file.",
+        text="Export.tla models a save call as one atomic action over a file system of tables of opaque tokens, with the documented axis order of each of the five entry points; TLC checks one-row-per-cell / every-token-once / error-leaves-nothing on all (entry point, shape incl. zero extents, path kind) and emits the expected table; the real save_* functions are called with tokens bound to adversarial values (subnormals, extremes, -0.0, NaN, infinities, integer extremes), the files are read back with the csv/arrow/parquet readers and compared cell by cell, unwritable paths must give Err without panic or leftover file. Unwritable path kinds: missing directory, a directory, and a device that opens and refuses every byte (/dev/full): an error that only surfaces at the final flush must be reported.",
         note="Trusted: TLC for layout/labels/Ok-Err; the csv, arrow and parquet reader crates and bit-pattern comparison in harness/src/c17.rs for value fidelity. The array entry points are called with the same logical array in five memory layouts (row-major, column-major, permuted / reversed axes, strided view).",
         ref="DESIGN.md 4.9, 5/C17", technique="TLC-enumerated save actions (Export.tla) replayed into the real writers and read back"),
     "C18": dict(
@@ -58,15 +58,15 @@ CLAIMED = {
         note="Trusted: TLC; fingerprints = first outputs of generator clones (pub fields / verif hooks); trajectories compared after 4-6 transitions.",
         ref="DESIGN.md 4.1, 5/C08", technique="TLC model check of Seeds.tla + trace validation of recorded stream fingerprints (Trace_Seeds)"),
     "C10": dict(
-        text="Progress.tla models the worker/reporter protocol (one channel per chain, polling reporter, at most MaxBars bars recycled left to right, exit when all final statistics were seen, receiver crash at any point); TLC proves Termination under weak fairness and DrawsExact / ExitOnlyWhenAllFinal / CountOnce over all interleavings with more chains than bars, and refutes a non-recycling reporter; TLC-enumerated completion schedules (7 chains, 5 bars) are realised deterministically through the reporter_iter hook, sampler x element type x backend x chain-count configurations (up to 48 chains) and receiver drops at every point are executed under a watchdog, and the reporter's logged bookkeeping is trace-validated against the specification with TLC inferring the unobservable drains.",
+        text="Progress.tla models the worker/reporter protocol (one channel per chain, polling reporter, at most MaxBars bars recycled left to right, exit when all final statistics were seen, receiver crash at any point); TLC proves Termination under weak fairness and DrawsExact / ExitOnlyWhenAllFinal / CountOnce over all interleavings with more chains than bars, and refutes a non-recycling reporter; TLC-enumerated completion schedules (7 chains, 5 bars) are realised deterministically through the reporter_iter hook, sampler x element type x backend x chain-count configurations (up to 48 chains) and receiver drops at every point are executed under a watchdog, and the reporter's logged bookkeeping is trace-validated against the specification with TLC inferring the unobservable drains. Execution resources are part of the model: chains as jobs of a pool of Slots executors (WStart, PoolRespected), the reporter on a thread of its own; Termination is proved for pools of 1 and 2 executors, a reporter that is itself a pool job on a 1-executor pool is the second negative control; every small configuration is also run under RAYON_NUM_THREADS=1 and every second one under 2.",
         note="Trusted: TLC; watchdog timeouts (30-120 s against a 250 ms polling period); draws compared bit for bit with run() on a clone (NUTS: shifted by one draw); diagnostics compared with RunStats::from(draws).",
         ref="DESIGN.md 4.3, 5/C10", technique="TLC model check incl. liveness of Progress.tla + Apalache inductive invariant of the reporter bookkeeping (ProgressInd.tla) + replay of TLC-generated schedules/configurations/faults + trace validation (Trace_Progress)"),
     "C02": dict(
-        text="HMC.tla models one row of the batched step action by action (momentum, gradient term at the current position, energy, L x half-kick/drift/gradient/half-kick, energy, Metropolis test ln u <= H - H', select) on a dyadic lattice where every quantity is an exact integer; TLC proves exactness of the lattice, that the code-shaped integrator (carried gradient term) is velocity Verlet, exact time reversibility and 'old row or proposal' for every configuration in the bounds incl. two consecutive steps; every behaviour is replayed through the real HMC::step with injected momenta/uniforms and must match BIT FOR BIT on the f64 backend (positions, momenta, both energies, mask), in batches, reversed batches and alone; verif_leapfrog from (x',-p') must return exactly to (x,-p); runs on Gaussian, Rosenbrock, Student-t and half-line targets (1..32 chains, dim 2..16, L 0..64, stable to overflowing step sizes) are trace-validated sub-step by sub-step against the harness's own gradients.",
+        text="HMC.tla models one row of the batched step action by action (momentum, gradient term at the current position, energy, L x half-kick/drift/gradient/half-kick, energy, Metropolis test ln u <= H - H', select) on a dyadic lattice where every quantity is an exact integer; TLC proves exactness of the lattice, that the code-shaped integrator (carried gradient term) is velocity Verlet, exact time reversibility and 'old row or proposal' for every configuration in the bounds incl. two consecutive steps; every behaviour is replayed through the real HMC::step with injected momenta/uniforms and must match BIT FOR BIT on the f64 backend (positions, momenta, both energies, mask), in batches, reversed batches and alone; verif_leapfrog from (x',-p') must return exactly to (x,-p); runs on Gaussian, Rosenbrock, Student-t and half-line targets (1..32 chains, dim 2..16, L 0..64, stable to overflowing step sizes) are trace-validated sub-step by sub-step against the harness's own gradients. step_size, n_leapfrog and positions are public fields: E, L and the start of a behaviour are what the fields hold when the step is taken -- every second replay runs on a sampler built with other values, moved by a throw-away transition, then re-tuned and re-positioned by assignment.",
         note="Trusted: TLC; hook events and overrides (feature verif-hooks); the harness's closed-form gradients for trace mode; tolerances 1e-12 (f64 paths) / 2e-4..5e-4 (f32 paths) with a 10-unit budget; exact finite ties are never generated.",
         ref="DESIGN.md 4.6, 5/C02", technique="TLC model check of HMC.tla on an exact dyadic lattice + bit-exact replay through HMC::step + trace validation on arbitrary targets (Trace_HMC)"),
     "C03": dict(
-        text="NutsTree.tla is Algorithm 6 as coded (NUTSChain::step + build_tree) as an explicit stack machine over an abstract leapfrog trajectory indexed by integer offsets, with an oracle for slice membership, divergence and U-turns and with the exact selection distribution of the candidate propagated through every merge; TLC proves, for every oracle pattern and random choice to tree depth 2 (3 thorough): next state is 0 or a slice-admissible visited point, never from a stopped subtree, contiguous extent <= 2^j, n = 1 + |slice|, n_alpha = leaves of the last doubling, uniform selection within a subtree (a wrong merge weight is the negative control). Real transitions (Gaussians dim 1..8 with random precision, library Gaussian, Rosenbrock, funnel, divergent, NaN-region targets, forced tiny/huge step sizes up to tree depth 10, f32/f64) are validated event by event: TLC replays the stack machine with the oracle answers bound to the logged fields and requires every logged counter, extent, candidate and state to equal the machine's; every leaf is re-integrated with the harness's own leapfrog. In the other direction Replay_NutsTree.tla fixes the oracle by a script that a real target realises (first coordinate = trajectory offset, exact dyadic momenta, slice class / divergence / U-turns chosen per offset), TLC runs NutsTree's own actions on every script to depth 1 (2) and sampled scripts to depth 3 (4), and the real build_tree (verif_api wrapper, scripted GradientTarget) must return the specification's n', s', n_alpha, alpha' and one of its candidates.",
+        text="NutsTree.tla is Algorithm 6 as coded (NUTSChain::step + build_tree) as an explicit stack machine over an abstract leapfrog trajectory indexed by integer offsets, with an oracle for slice membership, divergence and U-turns and with the exact selection distribution of the candidate propagated through every merge; TLC proves, for every oracle pattern and random choice to tree depth 2 (3 thorough): next state is 0 or a slice-admissible visited point, never from a stopped subtree, contiguous extent <= 2^j, n = 1 + |slice|, n_alpha = leaves of the last doubling, uniform selection within a subtree (a wrong merge weight is the negative control). Real transitions (Gaussians dim 1..8 with random precision, library Gaussian, Rosenbrock, funnel, divergent, NaN-region targets, forced tiny/huge step sizes up to tree depth 10, f32/f64) are validated event by event: TLC replays the stack machine with the oracle answers bound to the logged fields and requires every logged counter, extent, candidate and state to equal the machine's; every leaf is re-integrated with the harness's own leapfrog. In the other direction Replay_NutsTree.tla fixes the oracle by a script that a real target realises (first coordinate = trajectory offset, exact dyadic momenta, slice class / divergence / U-turns chosen per offset), TLC runs NutsTree's own actions on every script to depth 1 (2) and sampled scripts to depth 3 (4), and the real build_tree (verif_api wrapper, scripted GradientTarget) must return the specification's n', s', n_alpha, alpha' and one of its candidates. Record jobs include chains whose public `position` is assigned between run() calls and a Gaussian with an additive constant of -2.5e8 / +3e9 on f64.",
         note="Trusted: TLC; hook events; identification of trajectory points by bit pattern; the harness's closed-form gradients; quantised uniforms (2^-16, margin 2), U-turn dead zone 1e-4, divergence-bound margin 1.0. Whole transitions cannot be steered (the momentum is drawn inside step): they are validated impl -> spec only; build_tree is replayed spec -> impl, where which admissible candidate is drawn is not controlled (6 generator seeds per script).",
         ref="DESIGN.md 4.7, 5/C03", technique="TLC model check of NutsTree.tla over all oracle patterns + replay of TLC-generated build_tree behaviours on scripted targets into the real build_tree (Replay_NutsTree) + trace validation of real transitions against the same stack machine (Trace_NutsTree)"),
     "C04": dict(
